@@ -179,9 +179,12 @@ def ckkInit (v : α → Nat) (k : Nat) (items : List α) (best : EInt) : CkkStat
   let r := pushAll v k (sortDesc v items) [] 0
   { stack := [r.1], cnt := r.2, best := best, bestP := none, yields := [], done := false }
 
-/-- `complete_karmarkar_karp_sy.optimal(binner, numbins, items)`.
-    `none` result with exhausted fuel is reported as `Err.fuel`; an empty item list leaves
-    `best_partition_so_far` unbound (UnboundLocalError in Python; not in the property's domain). -/
+/-- `complete_karmarkar_karp_sy.optimal(binner, numbins, items)` AS IT WAS BEFORE FIX F11 (the current code is `ckkF`,
+    Model/CKKF.lean; this definition is kept for the refutations in PrtpyProofs/CKKDedupe.lean and shares `ckkStep` with the
+    generator `ckkGen`, which F11 does not touch).
+    `none` result with exhausted fuel is reported as `Err.fuel`.  On an empty item list Python raises ValueError (`max([])`
+    in the lower bound); the model answers `Err.indexError` there — outside every property's domain (non-empty input), and
+    `ckk2`, the only caller, guards the empty list itself. -/
 def ckk (v nm : α → Nat) [BEq α] (k : Nat) (contents : Bool) (items : List α) (fuel : Nat) : Except Err (Bins α) :=
   let s := ckkRun nm k contents false true fuel (ckkInit v k items .negInf)
   if !s.done then .error .fuel else
